@@ -34,7 +34,9 @@ class Experiment(object):
         description = exp.get("description")
         desc = exp.get("desc")
         if action == "profile":
-            data_file = exp.get("data_file") or configurator.data_file + ".profiles"
+            data_file = exp.get("data_file")
+            if not data_file and configurator.data_file:
+                data_file = configurator.data_file + ".profiles"
         else:
             data_file = exp.get("data_file") or configurator.data_file
 
